@@ -229,14 +229,20 @@ def jobs(L, timeout):
     b = '''    __CPROVER_assume(k < VB_L && !u.m_abort);
     struct LogContainer *nc = &lc[VB_L];
     __CPROVER_assume(nc->uncompressedFile.size == (size_t)nc->uncompressedFileSize && u.m_tellp + (int64_t)nc->uncompressedFileSize <= BIG);
-    __CPROVER_assume(k == 0 || u.m_tellp == END(k - 1));          /* the reader appends whole containers only */
+    /* the put position may lie INSIDE the last held container (bytes were written before): any state within the RI */
     uint32_t ns = nc->uncompressedFileSize;
+    _Bool inside = k > 0 && u.m_tellp < END(k - 1);
+    int64_t cut = k > 0 ? u.m_tellp - P(k - 1) : 0;
     UncompressedFile_write__std__shared_ptr_LogContainer(&u, nc);
 '''
+    same_but_last = ' && '.join('(%d >= k - 1 || (lc[%d].filePosition == olc[%d].filePosition && lc[%d].uncompressedFileSize == olc[%d].uncompressedFileSize && lc[%d].uncompressedFile.size == olc[%d].uncompressedFile.size))' % (i, i, i, i, i, i, i) for i in range(0, 3))
+    last = ' && '.join('(%d != k - 1 || (lc[%d].filePosition == olc[%d].filePosition && (int64_t)lc[%d].uncompressedFileSize == (inside ? cut : (int64_t)olc[%d].uncompressedFileSize) && lc[%d].uncompressedFile.size == (size_t)lc[%d].uncompressedFileSize))' % (i, i, i, i, i, i, i) for i in range(0, 3))
     asserts = [
         ('writeContainer/appended-at-the-put-position', 'u.m_data.tail == o.m_data.tail + 1 && u.m_data.items[k] == nc && nc->filePosition == o.m_tellp && nc->uncompressedFileSize == ns'),
         ('writeContainer/put-position-advances-by-its-size', 'u.m_tellp == o.m_tellp + (int64_t)ns'),
-        ('writeContainer/held-containers-and-read-side-untouched', 'u.m_data.head == 0 && ' + same_containers() + ' && u.m_tellg == o.m_tellg && u.m_fileSize == o.m_fileSize && u.m_rdstate == o.m_rdstate && u.m_gcount == o.m_gcount && u.m_abort == o.m_abort'),
+        ('writeContainer/the-container-holding-the-put-position-is-closed-there-(no-overlap-with-the-appended-one)', last),
+        ('writeContainer/containers-stay-chained-without-gap-or-overlap-(representation-invariant)', '(k == 0 || nc->filePosition == END(k - 1)) && nc->uncompressedFile.size == (size_t)nc->uncompressedFileSize && u.m_tellp == nc->filePosition + (int64_t)nc->uncompressedFileSize && u.m_tellg >= 0 && u.m_tellg <= BIG'),
+        ('writeContainer/earlier-containers-and-read-side-untouched', 'u.m_data.head == 0 && ' + same_but_last + ' && u.m_tellg == o.m_tellg && u.m_fileSize == o.m_fileSize && u.m_rdstate == o.m_rdstate && u.m_gcount == o.m_gcount && u.m_abort == o.m_abort'),
         ('writeContainer/notifies-the-reader-side', 'u.tellpChanged.notified != o.tellpChanged.notified'),
     ]
     for l, c_ in asserts: b += A(l, c_)
